@@ -159,6 +159,18 @@ def Statement_qname_fails_only_unsplittable : Prop :=
         (splitUri splitStartCats u = none ∧
           ((St.init.run ops).store.prefix u = none ∨ (St.init.run ops).store.prefix u = some [])))
 
+/-- The same for `qname_strict(u)` (every `compute_qname_strict(u, generate=True)`, the call the RDF/XML
+    serializers make for every predicate): after every history it fails only with ValueError, and only if `u`
+    has a forbidden character, or `split_uri(u)` raises (and `u` is not itself a namespace bound to a non-empty
+    prefix), or the strict split `split_uri(u, NAME_START_CATEGORIES)` raises. -/
+def Statement_qname_strict_fails_only : Prop :=
+  ∀ (ops : List Op) (i : Bool) (u : Str) (e : Err),
+    ((St.init.run ops).step (.qstrict i u)).2 = .err e →
+      e = .ValueError ∧ (validUri u = false ∨
+        (splitUri splitStartCats u = none ∧
+          ((St.init.run ops).store.prefix u = none ∨ (St.init.run ops).store.prefix u = some [])) ∨
+        splitUri nameStartCats u = none)
+
 /-- `unicodedata.category` for ALL of Unicode.  The model's `category` (a descent in the generated search
     tree `Tables.catTree`) equals, for every natural number, the linear reading `categorySpec` of the flat
     table `Tables.catRuns` generated from the running Python's `unicodedata` (first code point and category
@@ -217,6 +229,9 @@ theorem split_uri_complete : Statement_split_uri_complete :=
 
 theorem qname_fails_only_unsplittable : Statement_qname_fails_only_unsplittable :=
   fun ops i u e h => step_qname_error (HInv.run ops HInv.init) i u e h
+
+theorem qname_strict_fails_only : Statement_qname_strict_fails_only :=
+  fun ops i u e h => step_qstrict_error (HInv.run ops HInv.init) i u e h
 
 theorem longest_is_longest : Statement_longest_is_longest := getLongest_build
 
@@ -284,6 +299,13 @@ example : (category 233, category 20013, category 120792, category 917505, categ
 example : ((St.init.run exCollide).step (.sertrig true
       [(false, [(nsE ++ [103], false), (nsE ++ [115], false)]), (true, [(iriX, true)])])).2 =
     .doc [(sPv, nsE), (112 :: sPv, nsEa)] := by decide
+/-- RDF/XML: the `xmlns` table of a graph with the predicates `http://e/a/x` (prefix `b`) and `http://e/1a`
+    (the strict split generates `ns1` for `http://e/1`), and the generated prefix is bound afterwards -/
+example : ((St.init.run exHist).step (.serxml false [iriX, nsE ++ [49, 97]] [iriX, nsE ++ [49, 97]])).2 =
+      .doc [(sB, nsEa), ([110, 115, 49], nsE ++ [49]), (strRdf, rdfNs)] ∧
+    ((St.init.run exHist).step (.serxml false [iriX, nsE ++ [49, 97]] [iriX, nsE ++ [49, 97]])).1.store.namespace [110, 115, 49] =
+      some (nsE ++ [49]) := by decide
+
 /-- `bind_namespaces="cc"` raises NotImplementedError, an unknown mode ValueError; nothing is bound -/
 example : (St.init.step (.minit false .cc)).2 = .err .Other ∧ (St.init.step (.minit true .unknown)).2 = .err .ValueError ∧
     (St.init.step (.minit false .cc)).1.store.namespaces = [] := by decide
@@ -296,6 +318,10 @@ example : splitUri splitStartCats [97, 98, 99] = none := by decide
 example : splitUri splitStartCats [47, 97, 98, 47, 45] = some ([47], [97, 98, 47, 45]) := by decide
 example : splitUri splitStartCats (nsE ++ [45]) = none := by decide
 example : ((St.init.run exHist).step (.qname false (nsE ++ [45]))).2 = .err .ValueError := by decide
+/-- `http://e/1`: the default split gives the local name `1`, which is not an NCName, and the strict split
+    finds no name-start character after the last slash: `qname` answers, `qname_strict` raises ValueError -/
+example : ((St.init.run exHist).step (.qname false (nsE ++ [49]))).2 = .str [49] ∧
+    ((St.init.run exHist).step (.qstrict false (nsE ++ [49]))).2 = .err .ValueError := by decide
 
 /-- The non-override branch of `Memory.bind` as it was before the `fix:` commit: with `p → n1`,
     `q → n2`, `bind(p, n2, override=False)` left a listing that is not a bijection. -/
